@@ -83,6 +83,49 @@ class Spy:
         self.bbm.BitBirch = self.real
 
 
+
+# what a used output directory may hold (C15: with --overwrite "the directory holds only the new outputs",
+# without it "left untouched"): a dotted file, an extension-less file, a sub-directory, a dotted sub-directory
+DIRTY_KINDS = ["dotted file", "extension-less file + sub-directory", "previous-run look-alikes", "nested sub-directories"]
+
+
+def make_dirty(out, kind):
+    (out / "old.txt").write_text("precious")
+    if kind == 1:
+        (out / "NOTES").write_text("precious")
+        (out / "backup").mkdir()
+        (out / "backup" / "clusters").write_text("precious")
+    elif kind == 2:
+        (out / "clusters.pkl").write_bytes(b"precious")
+        (out / "input-fps").mkdir()
+        (out / "input-fps" / "zzz-old.npy").write_bytes(b"precious")
+        (out / "stale-output").write_text("precious")
+    elif kind == 3:
+        (out / "a" / "b").mkdir(parents=True)
+        (out / "a" / "b" / "deep").write_text("precious")
+        (out / ".hidden").write_text("precious")
+
+
+def dir_snapshot(out):
+    """relative path -> content (None for directories), recursively"""
+    snap = {}
+    for p in sorted(out.rglob("*")):
+        rel = str(p.relative_to(out))
+        snap[rel] = None if p.is_dir() else p.read_bytes()
+    return snap
+
+
+def dirty_leftovers(out, before):
+    """entries of the prepared directory that survive with their old content (files), or directories that
+    still hold an old file"""
+    left = []
+    for rel, content in before.items():
+        p = out / rel
+        if content is not None and p.is_file() and p.read_bytes() == content:
+            left.append(rel)
+    return left
+
+
 def call_term(c):
     if c[0] == "ctor":
         return f"(ACtor {NAMES.get(c[1], 'NUnknown')} {cfloat(c[2])} {cfloat(c[3])} {cz(c[4])})"
@@ -290,7 +333,9 @@ def suite_cli(seed, tier):
             ref_tree = api_run.last_tree
             if o["dirty"]:
                 out.mkdir()
-                (out / "old.txt").write_text("precious")
+                dirty_kind = i_run % 4
+                make_dirty(out, dirty_kind)
+                dirty_before = dir_snapshot(out)
             with Spy(use) as spy:
                 rc, txt, exc = invoke(run_args(o, in_arg, out))
             cases += 1
@@ -299,7 +344,7 @@ def suite_cli(seed, tier):
             if o["dirty"] and not o["overwrite"]:
                 seen = "VdErrHasFiles" if rc != 0 else "VdOk"
             elif o["dirty"]:
-                seen = "VdCleared" if (rc == 0 and not (out / "old.txt").exists()) else "VdOk"
+                seen = "VdCleared" if (rc == 0 and not dirty_leftovers(out, dirty_before)) else "VdOk"
             else:
                 seen = "VdOk"
             terms.append(f"check_validate {cbool(bool(o['dirty']))} true {cbool(bool(o['dirty']))} "
@@ -314,7 +359,7 @@ def suite_cli(seed, tier):
                 stats["refused"] += 1
                 if rc == 0:
                     r.bad.append({"suite": "cli", "what": "run: a non-empty output directory was not refused", "opts": desc})
-                elif sorted(p.name for p in out.iterdir()) != ["old.txt"] or (out / "old.txt").read_text() != "precious":
+                elif dir_snapshot(out) != dirty_before:
                     r.bad.append({"suite": "cli", "what": "run: a refused non-empty output directory was modified", "opts": desc})
                 continue
             if rc != 0:
@@ -322,8 +367,10 @@ def suite_cli(seed, tier):
                 continue
             if o["dirty"]:
                 stats["overwritten"] += 1
-                if (out / "old.txt").exists():
-                    r.bad.append({"suite": "cli", "what": "run: --overwrite left old files in the output directory", "opts": desc})
+                left = dirty_leftovers(out, dirty_before)
+                if left:
+                    r.bad.append({"suite": "cli", "what": "run: --overwrite left old entries in the output directory: "
+                                  f"{left} (directory prepared with content class {DIRTY_KINDS[dirty_kind]})", "opts": desc})
             for pr in check_outputs(out, o, ref_cl, ref_ce, [p.name for p in use], "run", ref_tree):
                 r.bad.append({"suite": "cli", "what": pr, "opts": desc})
     for k_mr in range(n_mr):
